@@ -13,4 +13,4 @@ if [ ! -x $V/bin/python ] || ! $V/bin/python -c "import z3, genlm.grammar" >/dev
 fi
 $V/bin/python -c "import z3, genlm.grammar; print('venv ok: z3', z3.get_version_string())"
 # oracle self-test (reference models vs brute force that shares no method with them); a disagreement fails the setup
-$V/bin/python -m vf.selftest 2>/dev/null
+if [ "${1:-}" != "venv" ]; then $V/bin/python -m vf.selftest 2>/dev/null; fi
